@@ -113,12 +113,11 @@ Definition parse (op : list tok) : cmd :=
     else if name =? "policy" then
       match args with
       | [TN c; TS k; TN m; TN size] =>
-        (* metric 2 is the peak-EWMA connection time (wall-clock data, not modelled): the pick of
-           LeastLoaded / PowerOfTwo is then any candidate, which is what [PRandom] says *)
-        let kd := kind_of k in
-        let kd' := if Z.eqb m 2 then match kd with KLeast | KP2c => KRandom | _ => kd end else kd in
-        CmdOp (OPolicy (znat c) kd' (if Z.eqb m 1 then MReq else MConn) (zN size))
+        (* metric 2 is the peak connection time (the driver switches the decay of the EWMA off) *)
+        CmdOp (OPolicy (znat c) (kind_of k) (if Z.eqb m 1 then MReq else if Z.eqb m 2 then MTime else MConn) (zN size))
       | _ => CmdBad end
+    else if name =? "rtt" then
+      match args with [TN h; TN v] => CmdOp (ORtt (znat h) (zN v)) | _ => CmdBad end
     else if name =? "closing" then
       match args with [TN h] => CmdOp (OClosing (znat h)) | _ => CmdBad end
     else if name =? "health" then
